@@ -19,7 +19,7 @@ CLAIMS = {
             "counting and items_contain callables. Tied to the source by regenerating ValidaGen on every run and by the differential "
             "run (implementation vs model) plus an independent Python oracle of the documented meaning as failing-input search.",
             "DESIGN.md section 7 C01"),
-    "C02": ("16 theorems (ValidaProofs/C02.lean, C02Spec.lean): `C02_spec_list_pointwise` - a spec list {op: [s1..sn]} whose items parse to non-null conditions parses to a condition whose filter result is, item by item, the left fold of op over the operands' results; pointwise Boolean combination at any depth, null identity, key/index mixing refused, "
+    "C02": ("17 theorems (ValidaProofs/C02.lean, C02Spec.lean, Stateless.lean): `C02_conditions_write_nothing` - no function of conditions.py (constructors, flatten, filter, the operators) has a write that outlives the call, decided against the writers table regenerated from the source; `C02_spec_list_pointwise` - a spec list {op: [s1..sn]} whose items parse to non-null conditions parses to a condition whose filter result is, item by item, the left fold of op over the operands' results; pointwise Boolean combination at any depth, null identity, key/index mixing refused, "
             "no tree aborts; object level: Heap.construct under type.__call__ never writes an existing object, keeps the heap acyclic and "
             "every older object's denotation, for every history (induction over the operation list); the __init__ guard is read from the "
             "source. Differential run over trees and object histories (identity-aware).",
@@ -29,7 +29,7 @@ CLAIMS = {
             "generalised over the frontier), the lock-step index never fails, inapplicable parts match nothing, a step raises nothing, "
             "primitive parts match by key/index equality. The except-tuple of get_data is generated from the source. Differential run "
             "through all entry points plus an independent Python reference walk.", "DESIGN.md section 7 C03"),
-    "C04": ("11 theorems (ValidaProofs/C04.lean): every (value, path) of the walk indexes the document to that value, paths pairwise "
+    "C04": ("14 theorems (ValidaProofs/C04.lean, C04Modifiers.lean): headline `C04_get_data_modifiers` - get_data(return_paths=True) with ANY datum and multiplicity modifier is the depth-first walk, the datum modifier applied to each node, each value paired with the path of that node, then the multiplicity modifier on the pairs; `C04_first_last_pairing` (first() / last() return the value with the path of the node it was computed from) and `C04_pairs_truthful` (on well-formed documents every reported path, looked up in the document, gives the node whose datum the value is); every (value, path) of the walk indexes the document to that value, paths pairwise "
             "distinct, same values with and without paths, datum / multiplicity modifiers by definition, both application orders "
             "commute, multiplicity refused on concrete paths. Differential run over every datum x multiplicity modifier in both orders.",
             "DESIGN.md section 7 C04"),
@@ -51,14 +51,14 @@ CLAIMS = {
             "the copy keeps the document's shape (invariant `Rel`). Also: the walk, the selection, a rule test and a declared cast raise "
             "nothing (except-tuple of Rule.test generated from the source). Differential run and a direct never-raises predicate on "
             "type-hostile documents.", "DESIGN.md section 7 C07"),
-    "C15": ("12 theorems (ValidaProofs/C15.lean, C07Casts.lean). Headline `C15_cast_data_is_document_with_casts`: every node of the "
+    "C15": ("13 theorems (ValidaProofs/C15.lean, C07Casts.lean). `C15_cast_selection_in_document`: the nodes a rule casts are those its path selects in the document it was given, whatever earlier rules wrote into the shared copy (from the generated flag castSelectsInDocument). Headline `C15_cast_data_is_document_with_casts`: every node of the "
             "document is found at the same path in the cast data, unchanged unless it is a string, and then either unchanged or the result of "
             "one of the declared casts on that string; with no casts the cast data equals the document. Also: cast tables of the source, cast_string_to_bool, uncastable types untouched, a failing cast "
             "leaves the node, the rule is judged on the copy, one-level write semantics, nothing castable leaves the copy unchanged, cast data "
             "is the copy after all rules. The model is purely functional: that the caller's document is untouched is checked on the "
             "implementation (C08). Differential run over castable/uncastable strings under keys of every type.",
             "DESIGN.md section 7 C15"),
-    "C08": ("12 theorems (ValidaProofs/C08.lean, C08Threads.lean): headline `C08_interleaving_same_results` / `C08_interleaving_callers_cells` / "
+    "C08": ("13 theorems (ValidaProofs/C08.lean, C08Threads.lean, Stateless.lean): `C08_only_known_writers` - the functions of the library with a write that can outlive the call (regenerated from the source: attribute / item stores on parameters or non-local objects, mutating calls on module-level objects, global, setattr, cache-like decorators) are exactly the eight the model accounts for; headline `C08_interleaving_same_results` / `C08_interleaving_callers_cells` / "
             "`C08_schedule_independent`: any number of validations, each the program `allocate the copy, then the cast write-backs`, interleaved "
             "in ANY schedule over one store, never write a cell the caller had, and every validation's working copy ends up denoting exactly the "
             "value it denotes when run alone. Also: documents as a store of cells – validation works on a deep copy (read from the source) "
@@ -67,7 +67,7 @@ CLAIMS = {
             "an existing condition (C02); repeatability by purity of the model. The interpreter itself is not modelled (allocation and write "
             "actions are the atomic steps of the schedule theorem). Identity-aware snapshots of documents, rules, paths, parts and conditions after every "
             "call of generated histories on the implementation.", "DESIGN.md section 7 C08"),
-    "C09": ("17 theorems (ValidaProofs/C09.lean, C09Spec.lean): headline `C09_spec_is_dsl` (C09Spec.lean): for every class, every constructor of the generated tables (aliases included), every spelling of the key (any letter case; type/dtype, len/length, in/in_) and every argument form the signature admits (scalar; list, tuple or mapping for several parameters; list for *args; mapping for **kwargs; type names for types), the spec parses to exactly the leaf the DSL call builds; `C09_spec_tree`: operator lists parse to the DSL-built tree. Also: the constructor tables generated from GeneralCallables / MapCallables bind correctly "
+    "C09": ("18 theorems (ValidaProofs/C09.lean, C09Spec.lean, Stateless.lean): `C09_parsing_keeps_no_state` - no function of the parsers' modules writes into a module-level object, an argument or a class (what a spec parses to cannot depend on the specs parsed before); headline `C09_spec_is_dsl` (C09Spec.lean): for every class, every constructor of the generated tables (aliases included), every spelling of the key (any letter case; type/dtype, len/length, in/in_) and every argument form the signature admits (scalar; list, tuple or mapping for several parameters; list for *args; mapping for **kwargs; type names for types), the spec parses to exactly the leaf the DSL call builds; `C09_spec_tree`: operator lists parse to the DSL-built tree. Also: the constructor tables generated from GeneralCallables / MapCallables bind correctly "
             "against the signatures generated from callables.py (what not_in_range violated), alias and type-name tables, null spec, and/or/xor "
             "fold, case-insensitivity of the key, representative spec = DSL rows per signature branch. Every (class, constructor) pair and "
             "spelling is exercised differentially (parser model vs implementation, constructor table vs DSL objects).",
@@ -86,7 +86,7 @@ CLAIMS = {
     "C13": ("31 theorems (ValidaProofs/C13.lean, C13Schema.lean, C13Behave.lean, C13FloatText.lean): `C13_float_text_round_trip` - the text `repr` writes for any double in fixed notation (what a YAML/JSON file holds) is read back by the float parser as exactly the same double, via `C13_float_digits_read_back` (the shortest-digits search only returns digit strings that round to the double, carry case included); `C13_schema_roundtrip_same_validation` - the rebuilt schema validates every document exactly as the original (verdict, failure and tested counts, cast data, every rule test; `validate rs' doc = validate rs doc`), `C13_roundtrip_same_test` for single rules, `C13_roundtrip_path_selection`; headline `C13_schema_roundtrip` (C13Schema.lean): a sorted schema whose rules have round-tripping conditions (C11), serialisable paths built by the constructor (C12) and casts from the library's table is written and parsed back to an equal schema (`schemaEq`), casts included; `C13_rule_roundtrip_eq` for single rules. Also: cast tables invert, shape of a serialised rule, cast round trip for both declared casts, "
             "rule round trip from the condition and path round trips, re-sorting a sorted rule list is the identity.",
             "DESIGN.md section 7 C13"),
-    "C14": ("26 theorems (ValidaProofs/C14.lean, C14Behave.lean, C14Paths.lean): lifted to parts, paths and rules (`C14_path_same_selection`: the same paths select the same nodes with the same concrete paths through every entry point, and compare equal; `C14_rule_same_verdict`: the same rules give the same rule test on every document); headline `C14_same_behaviour` / `C14_same_is_equal` / `C14_same_equiv`: conditions that are the same up to the order of the operands of any combination and the order of the keyword arguments of any single condition (identical arguments) compare equal AND give the same booleans, error flags, stripped data and paths on all data, with and without paths (guard `filterUnpacksValuesOnly = true` read from the source; the attempt to prove this found defect D32). Also: condition / part / path / rule equality is reflexive, symmetric and transitive wherever "
+    "C14": ("27 theorems (ValidaProofs/C14.lean, C14Behave.lean, C14Paths.lean, Stateless.lean): `C14_validate_writes_no_schema_state` - use does not change what a schema is equal to (validate writes no attribute; add_schema is the only writer of schema.py); lifted to parts, paths and rules (`C14_path_same_selection`: the same paths select the same nodes with the same concrete paths through every entry point, and compare equal; `C14_rule_same_verdict`: the same rules give the same rule test on every document); headline `C14_same_behaviour` / `C14_same_is_equal` / `C14_same_equiv`: conditions that are the same up to the order of the operands of any combination and the order of the keyword arguments of any single condition (identical arguments) compare equal AND give the same booleans, error flags, stripped data and paths on all data, with and without paths (guard `filterUnpacksValuesOnly = true` read from the source; the attempt to prove this found defect D32). Also: condition / part / path / rule equality is reflexive, symmetric and transitive wherever "
             "Python == is an equivalence on the stored values (proved for hashable values) and keyword names are distinct (as in every real "
             "object; counterexamples without that hypothesis are kernel-checked), commuted operands compare equal and filter identically, "
             "sensitivity to class / callable / operator / kind / list and map conditions. Known finding D16 (numerically equal arguments of "
@@ -100,7 +100,7 @@ CLAIMS = {
             "fails the item (except-tuple generated from the source), escaped keys are literal, un-escaped ones are paths. Known finding D18 "
             "(paths nested inside list / mapping arguments are never resolved) is listed. The harness's expected values come from an "
             "independent reference walk.", "DESIGN.md section 7 C17"),
-    "C18": ("11 theorems (ValidaProofs/C18.lean, C05Walk.lean). Headline `C18_rerooted_rule_judges_subdocument`: a re-rooted rule judges "
+    "C18": ("12 theorems (ValidaProofs/C18.lean, C05Walk.lean, Stateless.lean). `C18_validate_writes_no_schema_state`: an addition takes effect whatever was validated before it (validate keeps nothing on the schema). Headline `C18_rerooted_rule_judges_subdocument`: a re-rooted rule judges "
             "the whole document exactly as the original rule judges the sub-document at the root (same tested / valid / failing values, "
             "paths prefixed), and is untested and valid when the root is absent. Also: add_schema builds new rules (read from the source), the extended rule list is the stable "
             "sort of S plus the re-rooted rules, additions are independent, walking a concatenated path = walking the root then the rest "
